@@ -66,7 +66,7 @@ Failed ==
     F("conf_pack_outcome", phase = "pack" => CP.st = MP.st) \cup
     F("conf_out", (phase = "pack" /\ CP.st = "done" /\ MP.st = "done") => CP.out = MP.out) \cup
     F("conf_perr", (phase = "pack" /\ CP.st = "fail" /\ MP.st = "fail") =>
-                      CP.err = (IF T.genericp THEN MP.err ELSE GenErr(DP, MP.err, T.vec, phase = "pack" /\ p.hookname # ""))) \cup
+                      CP.err = (IF T.genericp THEN MP.err ELSE GenErrP(DP, MP.err, T.vec, phase = "pack" /\ p.hookname # ""))) \cup
     F("conf_writes", (phase = "pack" /\ T.genericp /\ CP.st = MP.st) => CP.writes = MP.writes) \cup
     F("conf_pevs", (phase = "pack" /\ T.genericp /\ CP.st = "done" /\ MP.st = "done") => CP.evs = MP.evs) \cup
     \* ---- the properties, on the recorded observations
